@@ -418,7 +418,15 @@ impl WireEncode for WireHostAddr {
                 } else if !bytes.len().is_multiple_of(4) {
                     Err("ScionHostAddr::Unknown bytes.len() must be a multiple of 4".into())
                 } else {
-                    Ok(())
+                    // The type/length field is 4 bits wide: the id must fit 2 bits and the
+                    // combination must not be the encoding of a known address type.
+                    let addr_type = self.addr_type();
+                    let nibble = u8::from(addr_type);
+                    if nibble > 0b1111 || WireHostAddrType::from(nibble) != addr_type {
+                        Err("ScionHostAddr::Unknown id/length is not representable as an unknown address type".into())
+                    } else {
+                        Ok(())
+                    }
                 }
             }
         }
